@@ -258,6 +258,44 @@ fn gen_scenario(kind: Kind, w: &mut W) -> Scenario {
                 real.push(None);
             }
         }
+        Kind::C09 if scale == 13 => {
+            // *History* flavour: subscribers (healthy ones and ones whose transport rejects writes)
+            // park their connections in streaming mode; then one client pipelines 64..260 calls in
+            // one burst, so that the server handles a long run of calls back to back while streams
+            // are waiting and their items become ready at moments the tape chooses.
+            let n_sub = 1 + t.draw(3);
+            let n_bad = 1 + t.draw(2);
+            let mut cid = 10u32;
+            for _ in 0..t.draw(3) {
+                // idle callers in front (they shift everybody's position in the connection list)
+                clients.push(ClientSpec { cid, calls: vec![CallSpec::Echo { pad: 1, oneway: false }], faults: vec![], pingpong: false, closes: false, after_quiet: false });
+                late.push(None);
+                cid += 1;
+            }
+            let mut subs: Vec<(bool, ClientSpec)> = Vec::new();
+            for _ in 0..n_sub {
+                let items = 1 + t.draw(6);
+                subs.push((false, ClientSpec { cid: 0, calls: vec![CallSpec::Stream { flags: vec![0; items], ends: t.draw(3) == 0 }], faults: vec![], pingpong: false, closes: false, after_quiet: false }));
+            }
+            for _ in 0..n_bad {
+                let items = 1 + t.draw(6);
+                subs.push((true, ClientSpec { cid: 0, calls: vec![CallSpec::Stream { flags: vec![0; items], ends: false }], faults: vec![if t.draw(4) == 3 { Fault::WriteGlitch { kth: t.draw(3) } } else { Fault::WriteError { kth: t.draw(3) } }], pingpong: false, closes: false, after_quiet: false }));
+            }
+            // subscribers arrive in a tape-chosen order
+            while !subs.is_empty() {
+                let (bad, mut c) = subs.remove(t.draw(subs.len()));
+                c.cid = if bad { 50 + cid } else { cid };
+                cid += 1;
+                clients.push(c);
+                late.push(None);
+            }
+            let burst = 64 + t.draw(200);
+            let calls: Vec<CallSpec> = (0..burst).map(|_| if t.draw(8) == 7 { CallSpec::Echo { pad: t.draw(6), oneway: true } } else { CallSpec::Echo { pad: t.draw(6), oneway: false } }).collect();
+            clients.push(ClientSpec { cid, calls, faults: vec![], pingpong: false, closes: t.draw(2) == 1, after_quiet: false });
+            late.push(None);
+            clients.push(ClientSpec { cid: 99, calls: vec![CallSpec::Echo { pad: 3, oneway: false }], faults: vec![], pingpong: false, closes: false, after_quiet: true });
+            late.push(None);
+        }
         Kind::C09 => {
             let healthy = if scale == 15 { 4 + t.draw(26) } else { 1 + t.draw(3) };
             let faulty = if scale == 15 { 1 + t.draw(8) } else { 1 + t.draw(2) };
@@ -291,11 +329,15 @@ fn gen_scenario(kind: Kind, w: &mut W) -> Scenario {
             // one world in five hundred: a flooder with tens of thousands of calls, and a quiet
             // connection whose call arrives only after more than 2^15 (or 2^16) others were served
             let wide = scale == 11 && t.draw(32) == 31;
-            let n = if wide { 2 + t.draw(3) } else if scale == 15 { 6 + t.draw(25) } else { 2 + t.draw(4) };
-            let n_flood = 1 + t.draw(n - 1);
+            // *History* flavour, one world in thirty-two: a crowd of 33..100 short-lived connections
+            // is open at the same time early in the server's life and goes away; the flooders then
+            // keep the server busy for well over a thousand loop iterations.
+            let crowd = if scale == 10 && t.draw(2) == 1 { 33 + t.draw(68) } else { 0 };
+            let n = if wide || crowd > 0 { 2 + t.draw(3) } else if scale == 15 { 6 + t.draw(25) } else { 2 + t.draw(4) };
+            let n_flood = if crowd > 0 { (2 + t.draw(2)).min(n - 1).max(1) } else { 1 + t.draw(n - 1) };
             for c in 0..n {
                 if c < n_flood {
-                    let ncalls = if wide { [33_500usize, 66_500][t.draw(2)] + t.draw(300) } else { 20 + t.draw(41) };
+                    let ncalls = if wide { [33_500usize, 66_500][t.draw(2)] + t.draw(300) } else if crowd > 0 { 500 + t.draw(400) } else { 20 + t.draw(41) };
                     // a flooder's calls may be oneway (nothing is written back for them): none / all / mixed
                     let ow = t.draw(4);
                     let calls = (0..ncalls).map(|_| CallSpec::Echo { pad: t.draw(12), oneway: ow == 2 || (ow == 3 && t.draw(2) == 1) }).collect();
@@ -304,12 +346,17 @@ fn gen_scenario(kind: Kind, w: &mut W) -> Scenario {
                 } else {
                     // single caller: one complete call, appearing once flooder f has been served k replies
                     let f = t.draw(n_flood);
-                    let k = if wide { [32_700usize, 65_400][t.draw(2)] + t.draw(400) } else { t.draw(20) };
+                    let k = if wide { [32_700usize, 65_400][t.draw(2)] + t.draw(400) } else if crowd > 0 { 150 + t.draw(340) } else { t.draw(20) };
                     let call = if (scale == 12 || scale == 13) && !yield_first { CallSpec::Len { pad: big_pad(t, scale == 13), oneway: false } } else { CallSpec::Echo { pad: t.draw(8), oneway: false } };
                     clients.push(ClientSpec { cid: 10 + c as u32, calls: vec![call], faults: vec![], pingpong: false, closes: false, after_quiet: false });
                     late.push(Some((f, k)));
                     singles.push(c);
                 }
+            }
+            for _ in 0..crowd {
+                let c = clients.len();
+                clients.push(ClientSpec { cid: 1_000 + c as u32, calls: vec![CallSpec::Echo { pad: 1, oneway: false }; t.draw(2)], faults: vec![], pingpong: false, closes: true, after_quiet: false });
+                late.push(None);
             }
             // optional extra clients that change the connection set: a short-lived one and a streaming one
             if t.draw(2) == 1 {
